@@ -15,6 +15,7 @@ from shexer.utils.log import log_msg
 from shexer.utils.uri import unprefixize_uri_if_possible
 from shexer.utils.dict import reverse_keys_and_values
 from shexer.consts import RATIO_INSTANCES
+from shexer.utils import verif_trace
 
 
 class Shaper(object):
@@ -303,17 +304,25 @@ class Shaper(object):
         if self._class_profiler is None:
             self._class_profiler = self._build_class_profiler()
         self._profile, self._class_counts, self._class_min_iris = self._class_profiler.profile_classes(verbose=verbose)
+        if verif_trace.active():
+            verif_trace.emit("profiled", profile=verif_trace.snapshot_profile(self._profile),
+                             counts=dict(self._class_counts))
 
     def _launch_class_shexer(self, acceptance_threshold, verbose=False):
         if self._class_shexer is None:
             self._class_shexer = self._build_class_shexer()
         self._shape_list = self._class_shexer.shex_classes(acceptance_threshold=acceptance_threshold,
                                                            verbose=verbose)
+        if verif_trace.active():
+            verif_trace.emit("shexed", threshold=acceptance_threshold,
+                             shapes=verif_trace.snapshot_shapes(self._shape_list))
 
     def _launch_instance_tracker(self, verbose=False):
         if self._instance_tracker is None:
             self._instance_tracker = self._build_instance_tracker()
         self._target_classes_dict = self._instance_tracker.track_instances(verbose=verbose)
+        if verif_trace.active():
+            verif_trace.emit("tracked", inst=verif_trace.snapshot_instances(self._target_classes_dict))
 
     def _build_class_shexer(self):
         return get_class_shexer(class_counts=self._class_counts,
